@@ -525,3 +525,14 @@ Qed.
 
 Lemma be32_bound a b c d : a < 256 -> b < 256 -> c < 256 -> d < 256 -> be32 [a; b; c; d] < 2 ^ 32.
 Proof. intros. unfold be32. change (2 ^ 32) with 4294967296. lia. Qed.
+
+(* ------------------------------------------------------------------ the pinned commit *)
+
+(** net.ParseIP("10.1.2.3") (16-byte form) with 10.0.0.0/8 present: the pinned Contains said false *)
+Theorem pinned_refuted :
+  exists ops ip, to4 ip <> None /\ contains_pinned (run ops) ip <> spec_contains ops ip
+                 /\ contains (run ops) ip = spec_contains ops ip.
+Proof.
+  exists [Add (mkCidr [10; 0; 0; 0] [255; 0; 0; 0])], (v4mapped [10; 1; 2; 3]).
+  vm_compute. repeat split; discriminate.
+Qed.
